@@ -411,8 +411,8 @@ func C09() *check.Property {
 	return &check.Property{
 		ID:       "C09",
 		Title:    "Context flows from Subscribe through every callback and is never nil",
-		Patterns: cat(CorePatterns, PluginPkgs, []string{PromPkg}, RatePkgs),
-		Scope:    []string{ro},
+		Patterns: cat(CorePatterns, PluginPkgs, IOPluginPkgs, []string{PromPkg}, RatePkgs),
+		Scope:    append([]string{ro}, IOPluginPkgs...),
 		Rules:    []check.Rule{ruleCtxProvenance(), ruleNoFreshContext(), ruleCtxPairing(), ruleDeadContextStore(), ruleSlotCtxArgument(), ruleCallbackCtxUsed(), ruleContextRewriterUniform(), ruleSlotCtxStable(), ruleTerminalCtxCaptured(), ruleCtxTupleWhole()},
 		Explanation: "Static def-use classification of every context operand. Sinks: the context argument of each upstream SubscribeWithContext and of each Next/Error/Complete notification in every subscribe closure " +
 			"(through inlined helpers and local closures), plus the same calls in the subjects, the subscriber and the connectable observable. Each operand is traced through assignments, tuple fields (lo.T2), slices/channels of tuples, " +
